@@ -3,9 +3,15 @@ open Model
 open Vio
 
 let cname c = "c" ^ dec_of_n c
+let ts_str (t : n) : string = if int_of_n t > 1700000000000000000 then "*" else dec_of_n t
+let snaps_str (m : snapmap) : string =
+  if m = [] then "-" else
+  let l = List.map (fun (c, s) -> (cname c, Printf.sprintf "%s:%s.%s.%s" (cname c) (dec_of_n s.sn_term) (dec_of_n s.sn_index) (dec_of_n s.sn_status))) m in
+  let l = List.sort (fun (a, _) (b, _) -> compare a b) l in
+  String.concat "+" (List.map snd l)
 let synced_str (m : smap) : string =
   if m = [] then "-" else
-  let l = List.map (fun (c, s) -> (cname c, Printf.sprintf "%s:%s.%s.%s" (cname c) (dec_of_n s.ss_term) (dec_of_n s.ss_index) (dec_of_n s.ss_ts))) m in
+  let l = List.map (fun (c, s) -> (cname c, Printf.sprintf "%s:%s.%s.%s" (cname c) (dec_of_n s.ss_term) (dec_of_n s.ss_index) (ts_str s.ss_ts))) m in
   let l = List.sort (fun (a, _) (b, _) -> compare a b) l in
   String.concat "+" (List.map snd l)
 
@@ -23,13 +29,18 @@ let dump (j : journal) (maxc : int) : string =
 
 let sentry_of c t i ts p = { s_cluster = n_of_dec c; s_term = n_of_dec t; s_index = n_of_dec i; s_ts = n_of_dec ts; s_payload = n_of_dec p }
 
-let run_a (ops : string list) : string =
+let run_a (live : bool) (ops : string list) : string =
   let nd = ref init_node in
   let maxc = ref 0 in
   let obs = ref [] in
+  let srcs : (int, sentry list) Hashtbl.t = Hashtbl.create 4 in
+  let prepared : (int * int, unit) Hashtbl.t = Hashtbl.create 4 in
   let push s = obs := s :: !obs in
   let observe r =
-    push (Printf.sprintf "%s;%s;%d" (res_str r) (synced_str !nd.n_cur.r_synced) (List.length !nd.n_cur.r_journal)) in
+    push (Printf.sprintf "%s;%s;%d;%s" (res_str r) (synced_str !nd.n_cur.r_synced) (List.length !nd.n_cur.r_journal)
+            (if live then "-" else snaps_str !nd.n_snaps)) in
+  let src_prefix c k = List.filteri (fun i _ -> i < k) (Hashtbl.find srcs c) in
+  let kth c k = List.nth (Hashtbl.find srcs c) (k - 1) in
   let do_op o = let (nd', r) = step !nd o in nd := nd'; observe r in
   List.iter (fun op ->
     match split_on ':' op with
@@ -41,6 +52,31 @@ let run_a (ops : string list) : string =
     | ["L"; p] -> do_op (OLocal (n_of_dec p))
     | ["S"] -> do_op OSnap
     | ["R"; _] -> do_op ORestart
+    | "W" :: c :: rest ->
+      let ci = int_of_string c in
+      if ci > !maxc then maxc := ci;
+      let ents = match rest with [] | [""] -> [] | [l] -> split_on ',' l | _ -> failwith "bad W" in
+      Hashtbl.replace srcs ci (List.map (fun e -> match split_on '.' e with
+                | [t; i; ts; p] -> sentry_of c t i ts p
+                | _ -> failwith ("bad source entry " ^ e)) ents)
+    | ["T"; c; k] ->
+      let ci = int_of_string c in
+      if ci > !maxc then maxc := ci;
+      let e = kth ci (int_of_string k) in
+      do_op (OXfer (n_of_dec c, e.s_term, e.s_index))
+    | ["P"; c; k; f] ->
+      let ci = int_of_string c and ki = int_of_string k in
+      if ci > !maxc then maxc := ci;
+      let e = kth ci ki in
+      if f = "-" then Hashtbl.replace prepared (ci, ki) ();
+      let content = if Hashtbl.mem prepared (ci, ki)
+        then Some (List.map (fun x -> (x.s_cluster, x.s_payload)) (src_prefix ci ki)) else None in
+      do_op (OSnapReq (n_of_dec c, e.s_term, e.s_index, content))
+    | ["K"; c; k] ->
+      let ci = int_of_string c in
+      if ci > !maxc then maxc := ci;
+      let e = kth ci (int_of_string k) in
+      do_op (OSkipReq (n_of_dec c, e.s_term, e.s_index))
     | "B" :: ents ->
       (* B:c.t.i.ts.p.f:...  one ApplyRaftReqs call *)
       let b = List.map (fun e -> match split_on '.' e with
@@ -64,7 +100,7 @@ let run_a (ops : string list) : string =
 let () =
   read_lines stdin (fun line ->
     match split_on '\t' line with
-    | id :: ("A" | "B") :: _eng :: _cls :: ops :: _ ->
+    | id :: (("A" | "B") as kind) :: _eng :: _cls :: ops :: _ ->
       let ops = List.filter (fun s -> s <> "") (split_on ' ' ops) in
-      Printf.printf "%s\t%s\n" id (run_a ops)
+      Printf.printf "%s\t%s\n" id (run_a (kind = "B") ops)
     | _ -> ())
